@@ -340,5 +340,10 @@ func (d Decimal) ToProtoDecimal() *dtpb.Decimal {
 
 // Round rounds a Decimal at the provided precision.
 func (d Decimal) Round(precision int32) Decimal {
+	// A value with no more than `precision` decimal places is already rounded;
+	// rescaling it would multiply by 10^precision (unbounded time for large precisions).
+	if precision >= -decimal.Decimal(d).Exponent() {
+		return d
+	}
 	return Decimal(decimal.Decimal(d).Round(precision))
 }
